@@ -7,6 +7,9 @@ import (
 	"bytes"
 	"encoding/binary"
 	"fmt"
+	"github.com/ipfs/go-cid"
+	cidlink "github.com/ipld/go-ipld-prime/linking/cid"
+	mh "github.com/multiformats/go-multihash"
 	edverifier "github.com/storacha/go-ucanto/principal/ed25519/verifier"
 	"io"
 	"log"
@@ -47,11 +50,14 @@ func init() {
 // cutExtra: bytes announced but not sent by the "http-cut" server (set while building the body)
 var cutExtra = 7
 
+// expectBlocks: for well-formed responses, the number of blocks the client must be able to iterate (-1: no claim)
+var expectBlocks = -1
+
 var respKinds = []string{
 	"empty-batch", "empty-report", "foreign-report", "normal", "bare-ran", "missing-receipt-block", "missing-invocation-block",
 	"receipt-not-a-receipt", "receipt-empty-out", "receipt-no-issuer", "receipt-bad-issuer", "receipt-empty-sig", "receipt-fx", "report-nil-value",
 	"root-not-message", "no-roots", "two-roots", "garbage", "empty-body", "truncated", "flipped",
-	"receipt-bad-issuer", "receipt-bad-issuer", "text-error", "text-error", "text-error", "receipt-short-sig", "receipt-short-sig", "huge-section", "huge-section", "report-null", "report-null", "http-cut", "http-cut", "http-cut",
+	"receipt-bad-issuer", "receipt-bad-issuer", "text-error", "text-error", "text-error", "receipt-short-sig", "receipt-short-sig", "huge-section", "huge-section", "report-null", "report-null", "http-cut", "http-cut", "http-cut", "links-to-non-ucan", "links-to-non-ucan", "identity-block", "identity-block", "big-aligned",
 }
 
 func genC15(cfg Config, emit Emit) error {
@@ -164,6 +170,18 @@ func respBody(kind string, r *rand.Rand) ([]byte, []ipld.Link) {
 		}
 		return rt
 	}
+	rawReceiptFull := func(ranLink ipld.Link, forks []ipld.Link, join ipld.Link, prf []ipld.Link) ipld.Block {
+		okNode, _ := okOut{1}.ToIPLD()
+		iss := svc.DID().String()
+		om := rdm.OutcomeModel[ipld.Node, ipld.Node]{Ran: ranLink, Out: rdm.ResultModel[ipld.Node, ipld.Node]{Ok: &okNode}, Iss: &iss,
+			Fx: rdm.EffectsModel{Fork: forks, Join: join}, Prf: prf}
+		rm := rdm.ReceiptModel[ipld.Node, ipld.Node]{Ocm: om, Sig: []byte{0xed, 0xa1, 0x03, 0x00}}
+		rt, err := block.Encode(&rm, rdm.TypeSystem().TypeByName("Receipt"), cbor.Codec, sha256.Hasher)
+		if err != nil {
+			panic(err)
+		}
+		return rt
+	}
 	reportFor := func(key ipld.Link, root ipld.Link) *mdm.ReportModel {
 		return &mdm.ReportModel{Keys: []string{key.String()}, Values: map[string]ipld.Link{key.String(): root}}
 	}
@@ -258,6 +276,47 @@ func respBody(kind string, r *rand.Rand) ([]byte, []ipld.Link) {
 		enc, _ := encodeNode(n)
 		rt := rawCborBlock(enc)
 		return carOf([]ipld.Link{rt.Link()}, []ipld.Block{rt, inv.Root()}), lookups
+	case "links-to-non-ucan":
+		// ran, a fork, the join and a proof all point at a block that is in the archive but is no token
+		junk := rawCborBlock([]byte{0xa1, 0x61, 0x78, 0x01}) // {"x": 1}
+		rr := rawReceiptFull(junk.Link(), []ipld.Link{junk.Link()}, junk.Link(), []ipld.Link{junk.Link()})
+		rt := encodeMsgRoot([]ipld.Link{}, reportFor(inv.Link(), rr.Link()))
+		return carOf([]ipld.Link{rt.Link()}, []ipld.Block{rt, rr, junk}), lookups
+	case "identity-block":
+		// a well-formed response that also carries a block under an identity CID (its bytes are its link)
+		data := []byte{0x18, 0x2a}
+		h, _ := mh.Sum(data, mh.IDENTITY, -1)
+		ib := block.NewBlock(cidlink.Link{Cid: cid.NewCidV1(0x55, h)}, data)
+		rc := normalRcpt()
+		m := mkMsg([]receipt.AnyReceipt{rc})
+		var bl []ipld.Block
+		for b, err := range m.Blocks() {
+			if err == nil {
+				bl = append(bl, b)
+			}
+		}
+		bl = append(bl, ib)
+		expectBlocks = len(bl)
+		return carOf([]ipld.Link{m.Root().Link()}, bl), lookups
+	case "big-aligned":
+		// a large well-formed response in which a section ends exactly at 1, 2, 4 or 8 MiB
+		target := []int{1 << 20, 2 << 20, 4 << 20, 8 << 20}[r.Intn(4)]
+		rc := normalRcpt()
+		m := mkMsg([]receipt.AnyReceipt{rc})
+		var bl []ipld.Block
+		for b, err := range m.Blocks() {
+			if err == nil {
+				bl = append(bl, b)
+			}
+		}
+		base := len(carOf([]ipld.Link{m.Root().Link()}, bl))
+		d := target - base - 40 // 4 bytes of length, 36 of CID
+		pad := make([]byte, d)
+		hp, _ := mh.Sum(pad, mh.SHA2_256, -1)
+		bl = append(bl, block.NewBlock(cidlink.Link{Cid: cid.NewCidV1(0x55, hp)}, pad), rawCborBlock([]byte{0x18, 0x63}), rawCborBlock([]byte{0x18, 0x64}))
+		body := carOf([]ipld.Link{m.Root().Link()}, bl)
+		expectBlocks = len(bl)
+		return body, lookups
 	case "http-cut":
 		// a good response of several blocks whose transmission stops exactly at a section boundary
 		rr := rawReceipt(nil, []byte{0xed, 0xa1, 0x03, 0x00}, inv.Link())
@@ -320,6 +379,7 @@ func execResp(a []string) (res Result) {
 		}
 	}()
 	step = "building the response"
+	expectBlocks = -1
 	body, lookups := respBody(kind, r)
 	pools()
 	ctPick := 0
@@ -355,7 +415,7 @@ func execResp(a []string) (res Result) {
 			}
 		}))
 		ts.Config.ErrorLog = log.New(io.Discard, "", 0)
-		defer ts.Close()
+		defer func() { ts.CloseClientConnections(); ts.Close() }()
 		u, _ := url.Parse(ts.URL)
 		ch = thttp.NewHTTPChannel(u)
 	}
@@ -365,7 +425,15 @@ func execResp(a []string) (res Result) {
 	}
 	step = "client.Execute"
 	resp, err := client.Execute(nil, conn)
+	// was the reply deliberately broken off (see the server above)?
+	broken := len(a) > 3 && a[3] == "http" && (kind == "http-cut" || atoi(a[2])/7%4 == 2)
+	if broken {
+		expectBlocks = -1
+	}
 	if err != nil {
+		if expectBlocks >= 0 && status == 200 {
+			return Result{Impl: "error", Oracle: "fail:a well-formed response is refused by client.Execute: " + err.Error()}
+		}
 		return Result{Impl: "error", Oracle: "ok"}
 	}
 	var trace []string
@@ -390,6 +458,9 @@ func execResp(a []string) (res Result) {
 		nb++
 	}
 	trace = append(trace, fmt.Sprintf("blocks=%d", nb))
+	if expectBlocks >= 0 && status == 200 && (blkErr || nb != expectBlocks) {
+		return Result{Impl: "response", Oracle: fmt.Sprintf("fail:a well-formed response of %d blocks reads back as %d blocks (iteration error: %v)", expectBlocks, nb, blkErr)}
+	}
 	if kind == "http-cut" && status == 200 && !blkErr {
 		return Result{Impl: "response", Oracle: "fail:a reply whose transmission broke off before the announced length was accepted as a complete response (no error from Execute, none from its blocks)"}
 	}
@@ -422,6 +493,46 @@ func execResp(a []string) (res Result) {
 			result.MatchResultR0(rc.Out(), func(o ipld.Node) { nodeKind(o) }, func(x ipld.Node) { nodeKind(x) })
 			step = "Receipt.Ran"
 			_ = rc.Ran().Link()
+			// whatever the receipt embeds is looked at the way an application does
+			look := func(d delegation.Delegation) {
+				if d == nil {
+					return
+				}
+				_ = d.Link()
+				if p := d.Issuer(); p != nil {
+					_ = p.DID().String()
+				}
+				if p := d.Audience(); p != nil {
+					_ = p.DID().String()
+				}
+				for _, c := range d.Capabilities() {
+					_, _ = c.Can(), c.With()
+				}
+				_, _, _, _ = d.Expiration(), d.NotBefore(), d.Nonce(), d.Facts()
+				_ = d.Signature().Raw()
+				for _, pl := range d.Proofs() {
+					_ = pl.String()
+				}
+			}
+			step = "Receipt.Ran().Invocation() fields"
+			if inv, ok := rc.Ran().Invocation(); ok {
+				look(inv)
+			}
+			step = "effect invocation fields"
+			for _, f := range rc.Fx().Fork() {
+				if inv, ok := f.Invocation(); ok {
+					look(inv)
+				}
+			}
+			if inv, ok := rc.Fx().Join().Invocation(); ok {
+				look(inv)
+			}
+			step = "proof delegation fields"
+			for _, pr := range rc.Proofs() {
+				if d, ok := pr.Delegation(); ok {
+					look(d)
+				}
+			}
 			step = "Receipt.Issuer"
 			if p := rc.Issuer(); p != nil {
 				_ = p.DID().String()
